@@ -150,7 +150,7 @@ def patterns(tier: str, seed: int) -> list[dict]:
     # steady streams
     add("steady-below-limit", clients=[[0, [[S(4), 10]] * int(hours * 900)]])
     add("steady-at-limit", clients=[[0, [[S(1.6), 14]] * int(hours * 2000)]])
-    add("steady-above-limit-open-loop", calls=[[S(1.0) * i, 48] for i in range(110 if deep else 90)])
+    add("steady-above-limit-open-loop", calls=[[S(1.0) * i, 48] for i in range(100 if deep else 90)])
     # idle gaps between bursts
     calls, t = [], 0
     for gap_s in (0, 120, 600, 45, 3600, 5):
@@ -210,9 +210,23 @@ def judge(results: list[dict], workers: int, mode: str) -> dict:
 
 
 def canary(results: list[dict], workers: int) -> dict:
-    """Corrupted records must be rejected, each by the clause it breaks."""
-    base = next(r for r in results if r["name"] == "burst8-same-instant-full")
-    mq = next(r for r in results if r["name"] == "mqtt:steady-below-allowance")
+    """Corrupted records must be rejected, each by the clause it breaks.  The base traces are synthetic
+    (independent of the code under test): 8 concurrent calls written in order one gap apart, and 30 MQTT
+    writes one second apart."""
+    def E(k, i, t, bits=0, b=-1, same=True):
+        return {"k": k, "id": i, "t": t, "bits": bits, "b": b, "same": same}
+
+    ev = [E("call", 1, 2000, 3500000), E("write", 1, 2000, 3500000)]
+    ev += [E("call", i, 2000, 3500000) for i in range(2, 9)]
+    ev += [E("write", i, 2000 + 500 * (i - 1), 3500000) for i in range(2, 9)] + [E("end", 0, 60000)]
+    base = {"mode": "serial", "gap": 500, "maxtok": 0, "init": X.CAP_UNITS, "t0": 0, "ev": ev}
+    ev = []
+    for i in range(1, 31):
+        ev += [E("call", i, 10000 * i), E("write", i, 10000 * i), E("ret", i, 10000 * i)]
+    mq = {"mode": "mqtt", "gap": 500, "maxtok": 80, "init": 0, "t0": 0, "ev": ev + [E("end", 0, 400000)]}
+    ok0 = tlc.validate_batch("TxTrace", [base, mq], cfg="TxTrace.cfg", workers=1, timeout=300)
+    if ok0["rejects"]:
+        raise tlc.MachineryFailure(f"canary: the clean synthetic traces are rejected: {ok0['rejects']}")
 
     def mutate(r: dict, fn) -> dict:
         c = {k: json.loads(json.dumps(r[k])) for k in FIELDS}
@@ -234,8 +248,13 @@ def canary(results: list[dict], workers: int) -> dict:
     def squeeze(ev):  # all writes happen at the time of the first: bits and spacing
         t0 = next(e for e in ev if e["k"] == "write")["t"]
         for e in ev:
-            if e["k"] == "write":
+            if e["k"] in ("write", "call", "ret"):
                 e["t"] = t0
+
+    def flood(ev):  # 300 more publishes in the first instant: beyond the initial burst allowance
+        t0 = ev[0]["t"]
+        ev[0:0] = [x for i in range(1000, 1300) for x in ({"k": "call", "id": i, "t": t0, "bits": 0, "b": -1, "same": True},
+                                                            {"k": "write", "id": i, "t": t0, "bits": 0, "b": -1, "same": True})]
 
     def swap(ev):  # two writes of different calls exchange places
         w = [j for j, e in enumerate(ev) if e["k"] == "write"]
@@ -244,7 +263,7 @@ def canary(results: list[dict], workers: int) -> dict:
         ev[a]["bits"], ev[b]["bits"] = ev[b]["bits"], ev[a]["bits"]
 
     bad = [mutate(base, drop_write), mutate(base, dup_write), mutate(base, alter), mutate(base, squeeze), mutate(base, swap),
-           mutate(mq, drop_write), mutate(mq, dup_write), mutate(mq, squeeze)]
+           mutate(mq, drop_write), mutate(mq, dup_write), mutate(mq, flood)]
     expect = ["d:lost", "d:dup_or_unknown", "d:altered", ("a:overdraw", "b:spacing"), "d:order", "d:", "d:dup_or_unknown",
               "c:"]
     res = tlc.validate_batch("TxTrace", bad, cfg="TxTrace.cfg", workers=workers, timeout=600)
